@@ -262,6 +262,37 @@ type counters struct {
 }
 
 var cnt counters
+
+// observed[category|format|type|value]: the check of that category was actually evaluated (passed or failed)
+// for that grid point at least once. Classes are collapsed to "*" over the observable part of the grid only
+// (a response that never decodes cannot refute "the row limit is ignored").
+var observed sync.Map
+
+func see(cat, format string, u unit) { observed.Store(cat+"|"+format+"|"+u.t.name+"|"+u.v.class, true) }
+
+func catOf(kind string) string {
+	switch {
+	case strings.HasPrefix(kind, "http-"):
+		return "status"
+	case strings.HasPrefix(kind, "malformed("):
+		return "wellformed"
+	case kind == "columns-differ":
+		return "columns"
+	case kind == "row_count-field-differs":
+		return "rowcount-field"
+	case kind == "rows-missing" || kind == "rows-extra":
+		return "rows"
+	case kind == "row-limit-not-applied":
+		return "limit"
+	case strings.HasPrefix(kind, "row-order-or-index:"):
+		return "index"
+	}
+	return "cell"
+}
+
+// kinds whose cause is chosen per (format, type), not per value: the value classes whose two renderings
+// happen to coincide (an empty list is "[]" for Arrow and for DuckDB) must not split the class.
+var perTypeKinds = map[string]bool{"text-form-not-duckdb(lossless)": true}
 var nontrivial sync.Map // "format|type|value" with >=1 cell compared
 var wireTypes sync.Map  // "type -> msgpack wire name / arrow type"
 var batchSizes sync.Map // n -> arrow batch sizes
@@ -331,12 +362,14 @@ func judge(format string, u unit, limit int, q string, exp *expected, status int
 		kinds = append(kinds, kind)
 		record(failure{Format: format, Type: u.t.name, Value: u.v.class, Comp: comp, N: u.n, Limit: limit, Kind: kind, Detail: detail, SQL: q})
 	}
+	see("status", format, u)
 	if status != 200 {
-		fail(fmt.Sprintf("http-%d", status), "", "DuckDB answers the statement, Arc responds "+strconv.Itoa(status)+": "+trimQ(strconv.QuoteToASCII(string(body))))
+		fail(fmt.Sprintf("http-%d", status), "", "DuckDB answers the statement, Arc responds "+strconv.Itoa(status)+": "+errorText(format, body))
 		return kinds
 	}
 	var d *decoded
 	var err error
+	see("wellformed", format, u)
 	switch format {
 	case "json":
 		d, err = decodeJSON(body)
@@ -366,16 +399,24 @@ func judge(format string, u unit, limit int, q string, exp *expected, status int
 	if len(d.types) == 2 {
 		wireTypes.LoadOrStore(format+" "+u.t.name, d.types[1])
 	}
+	see("columns", format, u)
 	if strings.Join(d.columns, "\x00") != strings.Join(exp.columns, "\x00") {
 		fail("columns-differ", "", fmt.Sprintf("columns %q, DuckDB %q", d.columns, exp.columns))
 		return kinds
 	}
+	if d.rowCount >= 0 {
+		see("rowcount-field", format, u)
+	}
+	see("rows", format, u)
 	if d.rowCount >= 0 && d.rowCount != int64(d.rows) {
 		fail("row_count-field-differs", "", fmt.Sprintf("row_count=%d but %d rows in data", d.rowCount, d.rows))
 	}
 	want := u.n
 	if limit > 0 && limit < want {
 		want = limit
+	}
+	if limit > 0 && limit < u.n && d.rows >= want {
+		see("limit", format, u)
 	}
 	switch {
 	case d.rows == want:
@@ -393,6 +434,9 @@ func judge(format string, u unit, limit int, q string, exp *expected, status int
 	}
 	compared := 0
 	for r := 0; r < rows; r++ {
+		if r == 0 {
+			see("index", format, u)
+		}
 		if k := cmpCell(format, exp.idx[r], d.cols[0][r]); k != "" {
 			fail("row-order-or-index:"+k, "", fmt.Sprintf("row %d column i: DuckDB %s, response %s", r, describe(exp.idx[r].v), describe(d.cols[0][r])))
 		}
@@ -401,6 +445,9 @@ func judge(format string, u unit, limit int, q string, exp *expected, status int
 			continue // already reported for the whole body; the lenient decoder replaced the bytes
 		}
 		compared++
+		if r == 0 || u.v.class == "cycle" {
+			see("cell", format, u)
+		}
 		if k := cmpCell(format, e, d.cols[1][r]); k != "" {
 			comp := ""
 			if u.v.class == "cycle" {
@@ -414,6 +461,32 @@ func judge(format string, u unit, limit int, q string, exp *expected, status int
 		nontrivial.Store(format+"|"+u.t.name+"|"+u.v.class, true)
 	}
 	return kinds
+}
+
+// errorText extracts the "error" field of an error envelope (the rest of it carries wall-clock noise).
+func errorText(format string, body []byte) string {
+	if format == "msgpack" {
+		r := &mpReader{b: body}
+		if v, err := r.value(0); err == nil {
+			if m, ok := v.(mpMap); ok {
+				for _, kv := range m {
+					if k, ok := kv.k.(oStr); ok && k == "error" {
+						if e, ok := kv.v.(oStr); ok {
+							return trimQ(strconv.QuoteToASCII(string(e)))
+						}
+					}
+				}
+			}
+		}
+	} else {
+		var j struct {
+			Error string `json:"error"`
+		}
+		if json.Unmarshal(body, &j) == nil && j.Error != "" {
+			return trimQ(strconv.QuoteToASCII(j.Error))
+		}
+	}
+	return fmt.Sprintf("%d-byte body", len(body))
 }
 
 // decodeJSONLenient: Go's decoder replaces invalid UTF-8 by U+FFFD instead of failing.
@@ -457,6 +530,7 @@ func classify(fs []failure, g *grid) []*class {
 			standalone[key{f.Format, f.Kind, f.Type, f.Value}] = true
 		}
 	}
+	explained := map[[3]string]bool{} // (format, kind, type): cycle failures dropped because a component explains them
 	anyStandalone := map[[3]string]bool{}
 	for k := range standalone {
 		anyStandalone[[3]string{k.format, k.kind, k.typ}] = true
@@ -467,9 +541,11 @@ func classify(fs []failure, g *grid) []*class {
 			// failing row (or, for whole-response failures, any value class of the type) fails on its own
 			// with the same kind. What is left is specific to mixing values / null positions.
 			if f.Comp != "" && standalone[key{f.Format, f.Kind, f.Type, f.Comp}] {
+				explained[[3]string{f.Format, f.Kind, f.Type}] = true
 				continue
 			}
 			if f.Comp == "" && anyStandalone[[3]string{f.Format, f.Kind, f.Type}] {
+				explained[[3]string{f.Format, f.Kind, f.Type}] = true
 				continue
 			}
 		}
@@ -501,11 +577,16 @@ func classify(fs []failure, g *grid) []*class {
 			}
 		}
 		kind := k.kind
-		if c.minN > 1 {
-			kind += fmt.Sprintf("@n>=%d", c.minN)
-		}
-		if c.minLimit > 0 && k.kind != "row-limit-not-applied" {
-			kind += fmt.Sprintf("@limit=%d", c.minLimit)
+		if k.kind != "row-limit-not-applied" { // (its minimal n and limit are what the kind says)
+			// size bucket, not a number, so that quick and thorough name the class identically
+			if c.minN > 2048 {
+				kind += "@batches>=2"
+			} else if c.minN > 1 {
+				kind += "@rows>=2"
+			}
+			if c.minLimit > 0 {
+				kind += fmt.Sprintf("@limit=%d", c.minLimit)
+			}
 		}
 		c.kind = kind
 		sk := skey{k.format, kind}
@@ -538,34 +619,59 @@ func classify(fs []failure, g *grid) []*class {
 		}
 		return &m
 	}
-	for _, types := range byKind {
-		// value collapse: every value class of the type fails -> "*"
-		perType := map[string][]*class{}
-		allStar := len(types) == len(g.types)
-		for tn, vals := range types {
-			t := g.typeByName(tn)
-			full := true
+	for sk, types := range byKind {
+		base := sk.kind
+		if i := strings.Index(base, "@"); i >= 0 {
+			base = base[:i]
+		}
+		cat := catOf(base)
+		universe := func(t *typeSpec) []string {
+			var out []string
 			for _, vc := range t.classes() {
+				if _, ok := observed.Load(cat + "|" + sk.format + "|" + t.name + "|" + vc); ok {
+					out = append(out, vc)
+				}
+			}
+			return out
+		}
+		// value collapse: every observable value class of the type fails -> "*"
+		perType := map[string][]*class{}
+		allStar, typesWithUniverse := true, 0
+		for _, t := range g.types {
+			uni := universe(t)
+			if len(uni) == 0 {
+				continue
+			}
+			typesWithUniverse++
+			vals := types[t.name]
+			full := len(vals) > 0
+			for _, vc := range uni {
+				if vc == "cycle" && vals[vc] == nil && explained[[3]string{sk.format, base, t.name}] {
+					continue
+				}
 				if vals[vc] == nil {
 					full = false
 				}
 			}
-			if full && len(t.classes()) > 1 {
-				var cs []*class
-				for _, c := range vals {
-					cs = append(cs, c)
-				}
+			if !full {
+				allStar = false
+			}
+			if len(vals) == 0 {
+				continue
+			}
+			var cs []*class
+			for _, c := range vals {
+				cs = append(cs, c)
+			}
+			if (full && len(uni) > 1) || perTypeKinds[base] {
 				m := merge(cs)
 				m.value = "*"
-				perType[tn] = []*class{m}
+				perType[t.name] = []*class{m}
 			} else {
-				allStar = false
-				for _, c := range vals {
-					perType[tn] = append(perType[tn], c)
-				}
+				perType[t.name] = cs
 			}
 		}
-		if allStar { // type collapse: every type of the grid fails for every value class -> "*"
+		if allStar && typesWithUniverse > 1 { // type collapse: every observable grid point fails -> "*|*"
 			var cs []*class
 			for _, l := range perType {
 				cs = append(cs, l...)
